@@ -240,12 +240,13 @@ func TestC17_Configurations(t *testing.T) {
 			// the page's name is an ordinary template name: any directory depth, any last
 			// character (also ones that occur in the extension), with or without dots
 			cs.ErrorPage = rapid.SampledFrom([]string{"errors/custom", "fault", "errors/show", "e", "w", "errors/internal.t", "err.tw", "x/y/z/oops", "500", "tw"}).Draw(rt, "customName")
-			files[cs.ErrorPage] = "<h1>CUSTOM-ERROR-PAGE</h1>{{ 1 + 1 }}"
+			// the error page is rendered on its own: names of the failed page's data mean nothing in it
+			files[cs.ErrorPage] = rapid.SampledFrom([]string{"<h1>CUSTOM-ERROR-PAGE</h1>{{ 1 + 1 }}", "<h1>CUSTOM-ERROR-PAGE</h1>{{ name = 404 }}{{ name + 1 }}", "{{ title = 5; name = [1] }}<h1>CUSTOM-ERROR-PAGE</h1>"}).Draw(rt, "customBody")
 		case "missing":
 			cs.ErrorPage = "errors/nosuch"
 		case "failing":
 			cs.ErrorPage = "errors/broken"
-			files["errors/broken"] = "<h1>BROKEN-PAGE-MARK</h1>{{ zzUndefined }}"
+			files["errors/broken"] = rapid.SampledFrom([]string{"<h1>BROKEN-PAGE-MARK</h1>{{ zzUndefined }}", "<h1>BROKEN-PAGE-MARK</h1>{{ name }}", "<h1>BROKEN-PAGE-MARK</h1>{{ name.len() }}"}).Draw(rt, "brokenBody")
 			cs.Markers = append(cs.Markers, "BROKEN-PAGE-MARK")
 		}
 		if rapid.IntRange(0, 7).Draw(rt, "defaults") == 0 {
